@@ -247,7 +247,8 @@ theorem spawnPayOf_4 (u : Tid) (h : clsOf u = 4) :
     spawnPayOf p u = (if p.merged then blockToks p 0 else []) ++ (if p.src == 2 then [nfnTok] else []) := by
   simp only [spawnPayOf, h]
 theorem spawnPayOf_2 (u : Tid) (h : clsOf u = 2) :
-    spawnPayOf p u = if p.merged then [] else nfnTok :: (rng p.nblk).flatMap (fun b => blockToks p (b + 1)) := by
+    spawnPayOf p u = if p.merged then (if p.src == 1 then [tk 0 0 0] else [])
+      else nfnTok :: (rng p.nblk).flatMap (fun b => blockToks p (b + 1)) := by
   simp only [spawnPayOf, h]
 theorem spawnPayOf_1 (u : Tid) (h : clsOf u = 1) :
     spawnPayOf p u = (rng p.n).flatMap (fun i => procToks i false) ++ [tk 9 0 0, tk 14 0 0, tk 5 0 0, tk 11 0 0, tk 12 0 0]
